@@ -66,6 +66,18 @@ static_assert(std::is_same<decltype(reverse(std::declval<const std::vector<int>>
 static_assert(std::is_same<decltype(enumerate(std::declval<const std::vector<int>>())), nitro::lang::detail::enumerate<const std::vector<int>>>::value, "[C20 w28] enumerate(const vector&&) returns the owning adaptor");
 static_assert(std::is_same<decltype(reverse(std::declval<const std::list<int>>())), nitro::lang::detail::reverse<const std::list<int>>>::value, "[C20 w29] reverse(const list&&) returns the owning adaptor");
 
+// a const element proxy (for (const auto& e : enumerate(c))) still aliases the element
+template <typename R>
+using const_proxy_value = decltype(std::declval<const decltype(*std::declval<R&>().begin())&>().value());
+std::vector<std::string> svec;
+static_assert(std::is_same<const_proxy_value<decltype(enumerate(svec))>, std::string&>::value, "[C20 w30] value() on a const proxy of enumerate(vector<string>&) is string& (a copy would swallow writes)");
+static_assert(std::is_same<const_proxy_value<decltype(enumerate(vec))>, int&>::value, "[C20 w31] value() on a const proxy of enumerate(vector<int>&) is int&");
+// built-in arrays of every element type take the array overload (elements are reference_wrappers to the array's own elements)
+const char cchars[4] = { 'a', 0, 'b', 0 };
+char chars[3] = { 'x', 'y', 'z' };
+static_assert(std::is_same<decltype(reverse(cchars)), nitro::lang::detail::reverse<std::vector<std::reference_wrapper<const char>>>>::value, "[C20 w32] reverse(const char(&)[N]) visits all N elements of the array (not a C string up to the first NUL)");
+static_assert(std::is_same<decltype(reverse(chars)), nitro::lang::detail::reverse<std::vector<std::reference_wrapper<char>>>>::value, "[C20 w33] reverse(char(&)[N]) is the array overload");
+
 void uses()
 {
     for (auto e : enumerate(std::array<int, 2>{ { 1, 2 } })) { (void)e.index(); } // [C20 m1] enumerate(array&&)
